@@ -166,6 +166,18 @@ def systematic():
         [task(views=[('A', M)], flt=('Has', 'B')), task(views=[('C', 'OptMut')], flt=('Not', ('Has', 'B')), has_id=True), task(par=True, views=[('D', M), ('B', Rf)])],
     ]
     scheds += indep
+    # ParSystems with entry views, followed by a task touching the entry-viewed component
+    parent = [
+        [task(par=True, views=[('B', Rf)], entry=[('A', M)]), task(views=[('A', M)])],
+        [task(par=True, views=[('B', M)], entry=[('A', 'OptMut')]), task(views=[('A', Rf)], has_id=True)],
+        [task(par=True, views=[('B', Rf)], entry=[('A', Rf)]), task(par=True, views=[('A', M)], entry=[('C', Rf)])],
+        [task(par=True, views=[('C', M)], entry=[('A', M)]), task(par=True, views=[('D', M)], entry=[('A', O)])],
+        [task(views=[('A', M)]), task(par=True, views=[('B', M)], entry=[('A', M)]), task(views=[('C', M)], entry=[('A', 'OptRef')])],
+        # two next-stage tasks that can both be started early
+        [task(views=[('A', M)]), task(views=[('A', M)], flt=('Has', 'B')), task(views=[('C', M)])],
+        [task(views=[('A', M)], flt=('Has', 'D')), task(views=[('A', M)], flt=('Not', ('Has', 'D'))), task(views=[('A', 'OptMut'), ('B', Rf)], flt=('And', ('Not', ('Has', 'D')), ('Has', 'C'))), task(views=[('C', M)], flt=('Not', ('Has', 'A')))],
+    ]
+    scheds += parent
     for s in scheds:
         for t in s:
             assert valid(t), t
